@@ -22,7 +22,8 @@ RULE = (
     "with n/i/r flags, 1..2 spatial dims, option subsets) x kernel bodies (alu add/mul; gemmx mac, qmac, qmac+add, qmac+rescale i8, "
     "rescale-only with distinct parameters; xdma add / rescale up/down) x stride patterns with pairwise distinct marker bounds and "
     "strides of random rank <= hardware dimensionality (zero strides on reuse/broadcast dims in a fraction of cases, zero-pointer "
-    "operands). Non-trivial: configuration differs from the default one or the pattern rank is below the hardware dimensionality; "
+    "operands); 25 % of the streaming-region modules hold a second region for the same accelerator and kernel with other stride "
+    "patterns and zero points in a function @main2 before or after the judged one. Non-trivial: configuration differs from the default one or the pattern rank is below the hardware dimensionality; "
     "distinct by (accelerator description, kernel, pattern ranks)."
 )
 ASSUMPTIONS = ASSUME_COMMON + [
@@ -38,7 +39,7 @@ TIERS = {
     "thorough": {"shards": 16, "cases": 30000, "timeout": 7200},
 }
 FLOORS = {
-    "quick": {"programs": 700, "fields_compared": 30000, "distinct_nontrivial": 300, "kernel_param_checks": 1500},
+    "quick": {"programs": 700, "fields_compared": 30000, "distinct_nontrivial": 300, "kernel_param_checks": 1500, "cases_second_region_in_module": 120},
     "thorough": {"programs": 25000, "fields_compared": 1000000, "distinct_nontrivial": 8000},
 }
 
@@ -355,6 +356,13 @@ def pack_shifts(sh):
 
 
 # ------------------------------------------------------------------------------------------------------
+def in_main(op):
+    p = op.parent_op()
+    while p is not None and p.name != "func.func":
+        p = p.parent_op()
+    return p is None or p.sym_name.data == "main"
+
+
 def run_case(case, res):
     if case.get("linalg"):
         return run_linalg_case(case, res)
@@ -368,6 +376,15 @@ def run_case(case, res):
     pats, zero_ptrs, kernel, rp, zps = case["pats"], set(case["zero_ptrs"]), case["kernel"], case["rp"], case["zps"]
     nstreams = len(acc.streamer_config.data.streamers)
     text = build_text(name, nstreams, pats, zero_ptrs, cls, kernel, rp, zps)
+    sec = case.get("second")
+    if sec:
+        # a second streaming region for the same accelerator and kernel with other stride patterns and zero points in a function
+        # @main2 before or after the judged one: the pass handles both in one application, nothing may leak from one to the other
+        r2 = random.Random(sec["seed"])
+        t2 = build_text(name, nstreams, gen_patterns(r2, acc, sorted(zero_ptrs)), zero_ptrs, cls, kernel, rp, [r2.randint(-120, 120), r2.randint(-120, 120)])
+        b1, b2 = text.strip().split("\n"), t2.strip().split("\n")
+        i1, i2 = "\n".join(b1[1:-1]), "\n".join(b2[1:-1]).replace("@main(", "@main2(")
+        text = b1[0] + "\n" + (i2 + "\n" + i1 if sec["pos"] == "before" else i1 + "\n" + i2) + "\n}\n"
     res["evaluations"] += 1
     try:
         m = parse(c, text)
@@ -389,7 +406,7 @@ def run_case(case, res):
     except Exception as e:
         R.reject(res, e)
         return out
-    setups = [op for op in m.walk() if op.name == "accfg.setup"]
+    setups = [op for op in m.walk() if op.name == "accfg.setup" and in_main(op)]
     if len(setups) != 1:
         R.reject(res, f"no-single-setup:{len(setups)}")
         return out
@@ -397,6 +414,9 @@ def run_case(case, res):
     names = [n.data for n in st.param_names.data]
     declared = list(accop.fields.data.keys())
     res["programs"] += 1
+    if sec:
+        R.bump(res, "cases_second_region_in_module")
+        R.bump(res, "second_region:" + sec["pos"])
     R.bump(res, "setups_checked")
     if len(st.values) != len(names) or len(names) != len(declared):
         out.append(
@@ -793,12 +813,15 @@ def attribute(v):
 def run_shard(seed, shard, n_cases, tier):
     res = R.new_result()
     rng = random.Random(seed)
+    rng_d = random.Random((seed << 4) ^ 0x8D0B)  # own stream: the judged regions stay what they were
     for i in range(n_cases):
         try:
             case = gen_case(rng)
         except Exception as e:
             R.reject(res, e)
             continue
+        if not case.get("linalg") and rng_d.random() < 0.25:
+            case["second"] = {"seed": rng_d.getrandbits(32), "pos": rng_d.choice(["before", "after"])}
         for v in run_case(case, res):
             R.violation(res, v["kind"], v["detail"], v["case"], attribute(v), info=v.get("info"))
         R.seen(res, "kernels", f"{case['desc'][0]}:{case['kernel']}" if not case.get("linalg") else f"linalg-path:{case['cls']}")
